@@ -10,6 +10,42 @@ import time
 import traceback
 
 
+def run_threaded(mod, shard, out_path, n):
+    """Run the shard's workload in n threads at once (same inputs, pure reference oracles) and merge."""
+    import threading  # noqa: PLC0415
+
+    sys.setswitchinterval(1e-6)
+    results, errors = [None] * n, []
+    start = threading.Barrier(n)
+
+    def body(i):
+        try:
+            start.wait()
+            results[i] = mod.run_shard(dict(shard), f"{out_path}.t{i}")
+        except BaseException as e:  # noqa: BLE001
+            errors.append("".join(traceback.format_exception(type(e), e, e.__traceback__))[-1500:])
+
+    ts = [threading.Thread(target=body, args=(i,), daemon=True) for i in range(n)]
+    for t in ts:
+        t.start()
+    for t in ts:
+        t.join()
+    if errors or any(r is None for r in results):
+        raise RuntimeError("threaded shard failed: " + (errors[0] if errors else "no result"))
+    res = results[0]
+    for r in results[1:]:
+        res["evaluations"] += r.get("evaluations", 0)
+        for k, v in r.get("viol_count", {}).items():
+            res["viol_count"][k] = res["viol_count"].get(k, 0) + v
+        res["violations"].extend(r.get("violations", []))
+        res["inconclusive"].extend(r.get("inconclusive", []))
+    for v in res["violations"]:
+        if isinstance(v.get("witness"), dict):
+            v["witness"]["under_threads"] = n
+    res.setdefault("tallies", {})["threaded_shard_copies"] = n
+    return res
+
+
 def main():
     pid, shard_path, out_path = sys.argv[1:4]
     with open(shard_path, encoding="utf-8") as fp:
@@ -35,7 +71,10 @@ def main():
                 from vf import judge  # noqa: PLC0415
 
                 judge.prelude()
-            res = mod.run_shard(shard, out_path)
+            if shard.get("_threads"):
+                res = run_threaded(mod, shard, out_path, int(shard["_threads"]))
+            else:
+                res = mod.run_shard(shard, out_path)
         finally:
             if reach is not None:
                 reach.stop()
